@@ -23,6 +23,7 @@ import math
 import multiprocessing
 import os
 import random
+import time
 from concurrent.futures import ThreadPoolExecutor
 
 from harness import tlc
@@ -103,7 +104,7 @@ def storable(text):
 
 
 def _parse_worker(args):
-    job, lang, cases, scratch = args
+    job, lang, cases, scratch, tplmod = args
     rec = W.Recorder.install()
     pages = {}
     for cid, atoms in cases:
@@ -120,7 +121,7 @@ def _parse_worker(args):
         text = W.concretise(atoms)
         for mode in MODES:
             if mode == "tpl":
-                if "Template:X%d" % cid not in pages:
+                if "Template:X%d" % cid not in pages or (tplmod and cid % tplmod[0] != tplmod[1] and len(atoms) > 1):
                     continue
                 raw, wdb = "{{X%d|a|k=v}}" % cid, db
             else:
@@ -147,13 +148,14 @@ def _parse_worker(args):
     return traces, crashes, hangs, structured, nparse
 
 
-def execute(ctx, plan):
-    """plan: list of (lang, [(cid, atoms)])."""
+def execute(ctx, plan, tplmod=None):
+    """plan: list of (lang, [(cid, atoms)]); tplmod (m, r): template-body mode only for texts with
+    cid % m == r (and all single lexemes)."""
     jobs = []
     for lang, cases in plan:
         for ch in chunks(cases, max(1, min(ctx.ncpu * 2, len(cases) // 400 + 1))):
             if ch:
-                jobs.append((len(jobs), lang, ch, ctx.scratch))
+                jobs.append((len(jobs), lang, ch, ctx.scratch, tplmod))
     traces = {}
     crashes, hangs, structured = [], [], set()
     nparse = 0
@@ -300,6 +302,7 @@ def report_crash(ctx, atoms, mode, lang, key, what):
 def run(ctx):
     quick = ctx.tier == "quick"
     rnd = random.Random(ctx.seed)
+    t0 = time.time()
     # ---- the reference pipeline machine
     r = tlc.run(ctx, "ParsePipeline", PIPE_MC % "FALSE", name="pipe-mc", coverage=True, timeout=600)
     if not r.ok:
@@ -349,7 +352,9 @@ def run(ctx):
         else:
             for l in W.LANGS:
                 plan[l].append((cid, s))
-    traces, crashes, hangs, structured, nparse = execute(ctx, sorted(plan.items()))
+    t1 = time.time()
+    traces, crashes, hangs, structured, nparse = execute(ctx, sorted(plan.items()), tplmod=(4, ctx.seed % 4) if quick else None)
+    ctx.note("generation %.0fs, %d parses in %.0fs" % (t1 - t0, nparse, time.time() - t1))
     # ---- TLC decides every distinct stage trace
     keys = sorted(traces)
     raised, malformed, tstates, ttrans = validate_traces(ctx, keys)
@@ -382,7 +387,9 @@ def run(ctx):
     chosen = {cid: c for cid, c in singles + spairs + sample + longs}
     items = [(cid, c[0], c[1], c[2]) for cid, c in sorted(chosen.items())]
     rnd.shuffle(items)
+    t2 = time.time()
     pumped = pump_all(ctx, items, W.LANGS[ctx.seed % len(W.LANGS)])
+    ctx.note("growth: %d texts pumped in %.0fs" % (len(items), time.time() - t2))
     nseries = nmeasured = 0
     for idx, atoms, sname, mode, counts, verdict in pumped:
         nseries += 1
@@ -448,7 +455,7 @@ def replay(ctx, path):
             print("replay: the series now fits the bound")
         return
     mode = rec["mode"].split(" ")[0]
-    traces, crashes, hangs, _, _ = _parse_worker((0, lang, [(0, atoms)], ctx.scratch))
+    traces, crashes, hangs, _, _ = _parse_worker((0, lang, [(0, atoms)], ctx.scratch, None))
     keys = sorted(traces)
     raised, malformed, _, _ = validate_traces(ctx, keys, name="replay")
     n = 0
